@@ -44,7 +44,10 @@ def scan(repo):
                     if isinstance(n.func, ast.Attribute) and n.func.attr in MUTATORS:
                         findings["mutator_calls"].append("%s %s" % (where, ast.unparse(n.func)))
                     if isinstance(n.func, ast.Name) and n.func.id in ("setattr", "delattr", "exec", "eval", "globals", "vars"):
-                        findings["setattr_calls"].append("%s %s" % (where, n.func.id))
+                        # setattr(self, name, value) inside a method is a store on the instance itself (allowed)
+                        onself = n.func.id in ("setattr", "delattr") and n.args and isinstance(n.args[0], ast.Name) and n.args[0].id == "self"
+                        if not onself:
+                            findings["setattr_calls"].append("%s %s" % (where, n.func.id))
     return findings
 
 
@@ -66,7 +69,7 @@ def obligations(repo):
     ob("attribute stores inside functions target only self", f["non_self_attribute_stores"])
     ob("no subscript store (d[k] = v) in any function", f["subscript_stores"])
     ob("no call of a mutating container method", f["mutator_calls"])
-    ob("no setattr/delattr/exec/eval/globals/vars", f["setattr_calls"])
+    ob("no setattr/delattr on objects other than self, no exec/eval/globals/vars", f["setattr_calls"])
     ob("module-level names are bound once", f["multiply_bound_module_names"])
     ob("no mutable class-level attribute", f["mutable_class_attributes"])
     ob("module-level attribute stores only initialise the Ed25519 group singleton at import",
